@@ -8,6 +8,7 @@ import (
 
 	gpb "github.com/openconfig/gnmi/proto/gnmi"
 	"github.com/openconfig/goyang/pkg/yang"
+	"github.com/openconfig/ygot/verifharness/corpus"
 	"github.com/openconfig/ygot/verifharness/gen"
 	"github.com/openconfig/ygot/verifharness/model"
 	"github.com/openconfig/ygot/ytypes"
@@ -64,6 +65,7 @@ type leafTarget struct {
 	KeySrc    reflect.Value // entry (existing or prototype) whose key leaves name the deepest entry on the way
 	InOrdered bool          // the target is inside (or is) an ordered-list entry
 	LastIsEntry bool        // the last element of Elems is a keyed list entry
+	Pkg         *corpus.Pkg
 }
 
 func relElems(rel string) []model.Elem {
@@ -88,7 +90,7 @@ func descend(r *simrt.Rng, s *treeState, stopAtStruct bool) *leafTarget {
 	cur := reflect.ValueOf(s.root)
 	t := cur.Type().Elem()
 	sch := s.sch
-	lt := &leafTarget{KeyLeaves: map[string]string{}}
+	lt := &leafTarget{KeyLeaves: map[string]string{}, Pkg: s.p}
 	var keyNames []string // key names of the list entry we are currently in
 	for depth := 0; depth < 12; depth++ {
 		if stopAtStruct && len(lt.Elems) > 0 && r.Intn(3) == 0 {
